@@ -118,7 +118,7 @@ def msgacc_cell(P, A):
             from .h_payload import build_with
             root = build_with(op, tgt, carried, story_ref)
         else:
-            root = build_message({'op': op, 'long_body': P.get('long_body')}, [], tgt, src_ids, [], addr=story_ref)
+            root = build_message({'op': op, 'long_body': P.get('long_body'), 'empty_body': P.get('empty_body')}, [], tgt, src_ids, [], addr=story_ref)
     finally:
         B.Ctx.raw = False
     if P.get('pretty'):
@@ -250,6 +250,13 @@ def other_cell(P, A):
             root = M.ready_to_air(ro_id=rid)
         else:
             root = B.ro_tree([rich_story(i, c0, 'x') for i in ids], ro_id=rid, ro_slug=c0, msg_id='2')
+        if P.get('untimed_first'):
+            # the first carried story has no timing metadata, the second one has
+            for st_ in root.iter('story'):
+                tb_ = st_.find('mosExternalMetadata')
+                if tb_ is not None:
+                    st_.remove(tb_)
+                break
     finally:
         B.Ctx.raw = False
     if P.get('pretty'):
